@@ -11,7 +11,7 @@ import subprocess
 import sys
 
 ROOT = os.path.dirname(os.path.dirname(os.path.abspath(__file__)))
-WT = "/tmp/seed_regress_wt"
+WT = "/tmp/seed_regress_wt_%d" % os.getpid()      # one per run: several regressions may run side by side
 want = sys.argv[1:]
 
 
